@@ -315,11 +315,19 @@ def build(chart, naming='id', code=None, order=None, tr_order=None, name='g', pr
     code = code or (lambda kind, ident: None)
     sc = Statechart(name, preamble=preamble)
     idxs = list(range(cm.n)) if order is None else list(order)
+    late = []
     for i in idxs:
         k, nm = cm.kind[i], cm.names[i]
         pn = None if cm.par[i] < 0 else cm.names[cm.par[i]]
-        if moved is not None and i == moved:
+        if moved == 'all':
+            # editing construction: every state below depth 2 is first attached under the root and moved into
+            # place top-down after a warm-up run (history states stay put when the root cannot own them)
+            if cm.par[i] > 0 and (cm.kind[0] == COMPOUND or k < SH) and cm.kind[0] in (COMPOUND, ORTH):
+                pn = cm.names[0]
+                late.append(i)
+        elif moved is not None and i == moved:
             pn = cm.names[0]        # first attached under the root, moved to its place after a warm-up run
+            late.append(i)
         en, ex = code('entry', i), code('exit', i)
         if k == BASIC:
             st = BasicState(nm, on_entry=en, on_exit=ex)
@@ -343,20 +351,30 @@ def build(chart, naming='id', code=None, order=None, tr_order=None, name='g', pr
                         priority=None if priorities is None else priorities[t])
         sc.add_transition(tr)
         trs[t] = tr
-    if moved is not None:
+    if late:
         from sismic.interpreter import Interpreter
         from sismic.model import CompoundState as _C, HistoryStateMixin as _H
+        # the temporary shape must itself be a runnable chart: no state declares as initial a state that is not
+        # (yet) its child (default entry into a non-child never stabilises)
+        for i in range(cm.n):
+            st = sc.state_for(cm.names[i])
+            if isinstance(st, _C) and st.initial is not None and sc.parent_for(st.initial) != st.name:
+                st.initial = None
         try:    # the chart is used (depths, configurations are computed) before it is edited into its final shape
             warm = Interpreter(sc, initial_context={'G': lambda *a: False, 'A': lambda *a: None, 'P': lambda *a: None})
             warm.execute_once()
             warm.queue('a').execute_once()
         except Exception:
             pass
-        sc.move_state(cm.names[moved], cm.names[cm.par[moved]])
+        for nm in cm.names:     # public queries a tool may make on a chart under construction
+            sc.depth_for(nm), sc.ancestors_for(nm), sc.descendants_for(nm), sc.children_for(nm), sc.parent_for(nm)
+            sc.least_common_ancestor(nm, cm.names[-1])
+        for i in sorted(late, key=lambda i: (cm.depth[i], i)):
+            sc.move_state(cm.names[i], cm.names[cm.par[i]])
         for i in range(cm.n):           # move_state resets initial/memory that pointed to the moved state
             st = sc.state_for(cm.names[i])
             if isinstance(st, _C):
-                st.initial = cm.names[cm.init[i]]
+                st.initial = cm.names[cm.init[i]] if cm.init[i] >= 0 else None
             elif isinstance(st, _H):
                 st.memory = cm.names[cm.init[i]]
     return sc, trs, cm
